@@ -13,6 +13,7 @@ import CE.Rules.Table
 import CE.Chars.Chars
 import CE.Rules.Spec
 import CE.Rules.Measure
+import CE.Cte.ArrFmt
 /-
   Line-protocol driver: executes the model's definitions on the operations the Go
   harness ran on the implementation.  Input line:  kind \t id \t op \t arg... \t => \t expected
@@ -264,8 +265,44 @@ def convOp (args : List String) : String :=
     | _, _ => "BADINPUT"
   | _ => "BADINPUT"
 
+/-- CTE.ARRFMT kind fmt elems → the array text the encoder writes -/
+def cteArrFmt (args : List String) : String :=
+  match args with
+  | [k, f, es] =>
+    match Cte.ArrFmt.Kind.ofName k, Cte.ArrFmt.Fmt.ofName f, parseNats es with
+    | some k, some f, some l => if k.isFloat then "UNMODELLED" else Cte.ArrFmt.printArray k f l
+    | _, _, _ => "BADINPUT"
+  | _ => "BADINPUT"
+
+/-- CTE.ARRPARSE kind text → OK elems | ERR : the decoder's reading of an array text -/
+def cteArrParse (args : List String) : String :=
+  match args with
+  | [k, body] =>
+    match Cte.ArrFmt.Kind.ofName k with
+    | none => "BADINPUT"
+    | some k =>
+      if k.isFloat then "UNMODELLED" else
+      let pre := "@" ++ k.name
+      if !body.startsWith pre || !body.endsWith "]" then "ERR" else
+      let rest := (body.drop pre.length).toString
+      let (f, inner) : Option Cte.ArrFmt.Fmt × String :=
+        if rest.startsWith "[" then (some .dec, (rest.drop 1).toString)
+        else if rest.startsWith "b[" then (some .bin, (rest.drop 2).toString)
+        else if rest.startsWith "o[" then (some .oct, (rest.drop 2).toString)
+        else if rest.startsWith "x[" then (some .hex, (rest.drop 2).toString)
+        else (none, "")
+      match f with
+      | none => "ERR"
+      | some f =>
+        let inner := (inner.dropEnd 1).toString
+        let toks := (inner.splitOn " ").filter (· ≠ "")
+        match toks.mapM (fun t => Cte.ArrFmt.parseElem k f t.toList) with
+        | some es => "OK " ++ natsText es
+        | none => "ERR"
+  | _ => "BADINPUT"
+
 def ops : List (String × (List String → String)) :=
-  [("CBE.ENC", cbeEnc), ("CBE.DEC", cbeDec), ("CANON.EQ", canonEq), ("RULES", rulesOp), ("WF.REL", wfRel), ("FWD.EQ", fwdEq), ("MEASURE", measureOp), ("CBE.MINLEN", minLenOp), ("API.DETECT", apiDetect), ("API.VERSION", apiVersion), ("READER.ALL", readerAll), ("READER.FAULT", readerFault), ("TREE.EQ", treeEq), ("ARR.TOLE", arrToLE), ("ARR.FROMLE", arrFromLE), ("CONV", convOp)]
+  [("CBE.ENC", cbeEnc), ("CBE.DEC", cbeDec), ("CANON.EQ", canonEq), ("RULES", rulesOp), ("WF.REL", wfRel), ("FWD.EQ", fwdEq), ("MEASURE", measureOp), ("CBE.MINLEN", minLenOp), ("API.DETECT", apiDetect), ("API.VERSION", apiVersion), ("READER.ALL", readerAll), ("READER.FAULT", readerFault), ("TREE.EQ", treeEq), ("ARR.TOLE", arrToLE), ("ARR.FROMLE", arrFromLE), ("CONV", convOp), ("CTE.ARRFMT", cteArrFmt), ("CTE.ARRPARSE", cteArrParse)]
 
 def splitArrow : List String → List String × String
   | [] => ([], "")
